@@ -740,7 +740,9 @@ def incremental_lineage_models(ctx, rng, n):
         sps = [lineage_splitter(M, s_["modes"], s_["volume"], s_["noise"]) for s_ in spec["splitters"]]
 
         def poke():
-            M.py_initialize()
+            # (half of the time no explicit initialisation: the interface initialises a model that says it needs it)
+            if rng.chance(1, 2):
+                M.py_initialize()
             if rng.chance(1, 2):
                 I0 = LineageCSimInterface(M)
                 with warnings.catch_warnings():
@@ -762,7 +764,8 @@ def incremental_lineage_models(ctx, rng, n):
             M.create_division_event(t_, dict(ep), pt, dict(pp), sps[len(spec["div_rules"]) + j]); poke()
         for t_, ep, pt, pp in spec["death_events"]:
             M.create_death_event(t_, dict(ep), pt, dict(pp)); poke()
-        M.py_initialize()
+        if i % 2:
+            M.py_initialize()
         I = LineageCSimInterface(M)
         I.py_set_initial_time(float(T[0]))
         py_seed_random(seed)
@@ -786,6 +789,55 @@ def incremental_lineage_models(ctx, rng, n):
         ctx.nontriv(("incremental", len(parts), tuple(sorted(set(p_[0] for p_ in parts)))))
 
 
+def parameter_free_rules(ctx):
+    """a lineage rule that names no species and no parameter (its formula reads only the volume or the time), added to a model
+    that is already initialised and has been simulated, with no explicit initialisation afterwards: the next simulation uses
+    it, as it does when the same definition is built at once."""
+    from bioscrape.lineage import LineageModel, LineageVolumeCellState, LineageCSimInterface, LineageSSASimulator
+    from bioscrape.random import py_seed_random
+    T = np.linspace(0, 3.0, 13)
+
+    def base(init):
+        return LineageModel(species=["A"], parameters={"k": 1.0}, reactions=[([], ["A"], "massaction", {"k": "k"})],
+                            initial_condition_dict={"A": 0}, initialize_model=init)
+
+    def run_(M):
+        I = LineageCSimInterface(M)
+        v = LineageVolumeCellState(v0=1.0, t0=0.0, state=np.array(M.get_species_array(), dtype=float))
+        py_seed_random(5)
+        with warnings.catch_warnings():
+            warnings.simplefilter("ignore")
+            r = LineageSSASimulator().py_SimulateSingleCell(T, Model=M, interface=I, v=v)
+        return np.array(r.py_get_timepoints(), float).tolist(), np.array(r.py_get_volume(), float).tolist()
+
+    def add(M, what):
+        if what == "volume assignment":
+            M.create_volume_rule("assignment", {"equation": "volume + 0.25"})
+        elif what == "volume ode":
+            M.create_volume_rule("ode", {"equation": "1"})
+        elif what == "division general":
+            M.create_volume_rule("ode", {"equation": "1"})
+            M.create_division_rule("general", {"equation": "volume - 2"}, lineage_splitter(M, {"A": "binomial"}, "binomial", 0.0))
+    for what in ("volume assignment", "volume ode", "division general"):
+        for used in ("initialised", "simulated"):
+            case = {"scenario": "parameter-free lineage rule added to a model already " + used, "rule": what}
+            ctx.begin_case(case)
+            ref = base(False); add(ref, what)
+            want = run_(ref)
+            M = base(True); M.py_initialize()
+            if used == "simulated":
+                run_(M)
+            add(M, what)
+            got = run_(M)
+            ctx.evaluated()
+            if got != want:
+                ctx.violation("lineage/incremental-edits", "a lineage rule without species or parameters (%s) added to a model already %s is not used by the next "
+                              "simulation: volume trace %s (time axis of %d rows), the definition built at once gives %s (%d rows)"
+                              % (what, used, got[1][:6], len(got[0]), want[1][:6], len(want[0])), dict(case, incremental=got[1][:13], at_once=want[1][:13]))
+                return
+            ctx.count("parameter_free_rule_cases")
+
+
 def run(ctx):
     rng = ctx.rng
     q = ctx.quick()
@@ -797,6 +849,7 @@ def run(ctx):
     lineage_corr(ctx, rng, 30 if q else 500, 2 if q else 4)
     lineage_oracle_only(ctx, rng, 15 if q else 300)
     incremental_lineage_models(ctx, rng, 25 if q else 400)
+    parameter_free_rules(ctx)
 
 
 def replay(ctx, obj):
